@@ -491,3 +491,45 @@ SPECS['C19'] = dict(queries=c19, assumptions=COMMON_ASSUMPTIONS + [
     "std::vector::at() out-of-range is modelled as a real throw of std::out_of_range (caught in the harness)",
     "publication ('everything written before ... is visible') is decided under sequential consistency here and under the happens-before monitor in C07"],
     outside=["more than one trigger per line alive at the same time", "more than 3 threads"])
+
+
+# ------------------------------------------------------------------------------------------------ C20
+WRAPS['lr_guarded'] = 7
+
+
+def c20(tier):
+    qs = []
+    Wt, Rd, W2 = ('W', 'vp_writer'), ('R', 'vp_reader'), ('W2', 'vp_writer2')
+    def tq(name, wrap, ops, rounds, **kw):
+        threads = [(f'T{i + 1}', f'vp_t{i + 1}') for i in range(len(ops))]
+        defines = [f'WRAP={WRAPS[wrap]}'] + [f"T{i + 1}_OPS=" + ','.join('OP_' + o for o in ol) for i, ol in enumerate(ops)]
+        kw.setdefault('unwind', 3)
+        return mk(name, 'c20_throw.cpp', threads, rounds, final='vp_final', cover=(1 << len(ops)) - 1, defines=defines,
+                  opts={'yield_blocks': False}, **kw)
+    lr = dict(final='vp_final', defines=['WRAP=7'], unwind=3, timeout=1500)
+    if tier == 'quick':
+        qs.append(mk('lr_throw_writer_reader_R3', 'c20_throw.cpp', [Wt, Rd], 3, cover=3, **lr))
+        qs.append(mk('lr_throw_writer_writer2_R2', 'c20_throw.cpp', [Wt, W2], 2, cover=5, **lr))
+        qs.append(tq('ordered_throw_modify_read', 'ordered_guarded', [['MODIFY', 'READ'], ['READ', 'MODIFY']], 3))
+        qs.append(tq('guarded_throw_store_load', 'guarded', [['STORE', 'LOAD'], ['ASSIGN', 'LOAD']], 3))
+        qs.append(tq('atomic_throw_xchg_cas', 'atomic_guarded', [['XCHG', 'LOAD'], ['CAS', 'STORE']], 3))
+    else:
+        qs.append(mk('lr_throw_writer_reader_R4', 'c20_throw.cpp', [Wt, Rd], 4, cover=3, **dict(lr, timeout=3000)))
+        for od in orders(3, 'all'):
+            qs.append(mk('lr_throw_w_r_w2_R3_o' + ''.join(map(str, od)), 'c20_throw.cpp', [Wt, Rd, W2], 3, order=od, cover=7, **dict(lr, timeout=3000)))
+        qs.append(tq('ordered_throw_modify_read_R4', 'ordered_guarded', [['MODIFY', 'READ'], ['READ', 'MODIFY']], 4, timeout=3000))
+        qs.append(tq('ordered_throw_store_load_R3', 'ordered_guarded', [['STORE', 'LOAD'], ['ASSIGN', 'MODIFY']], 3, timeout=3000))
+        qs.append(tq('guarded_throw_store_load_R4', 'guarded', [['STORE', 'LOAD'], ['ASSIGN', 'LOAD']], 4, timeout=3000))
+        qs.append(tq('atomic_throw_xchg_cas_R4', 'atomic_guarded', [['XCHG', 'LOAD'], ['CAS', 'STORE']], 4, timeout=3000))
+        qs.append(tq('atomic_throw_cas_cas_R3', 'atomic_guarded', [['CAS', 'ASSIGN'], ['CAS', 'XCHG']], 3, timeout=3000))
+    return qs
+
+
+SPECS['C20'] = dict(queries=c20, assumptions=COMMON_ASSUMPTIONS + [
+    "exceptions are lowered from the IR: invoke/landingpad/resume and the __cxa_* runtime become an explicit pending-exception record; "
+    "catch clauses match by typeinfo identity (plus the std exception hierarchy); an exception that leaves a thread entry function is an assertion failure",
+    "the index of the throwing user-code invocation is symbolic in 0..4 (0 = nothing throws); user code = modify/read functors (entry and middle), "
+    "payload copy constructor, assignment and operator==",
+    "lr_guarded: plain payload copies (the documented requirement that roll-back copies do not throw); fair-spin yield as in C03"],
+    outside=["cow_guarded / deferred_guarded / DelayedDestructor / SearchableObjectHolder clauses: decided in the C04 / C06 / C16 / C17 harnesses where claimed",
+             "exceptions thrown by the roll-back copy itself", "more than 3 threads"])
